@@ -26,6 +26,11 @@ func init() {
 		ruleL10(c, "C06.L10")
 		// a lock taken for a handle that turns out stale is given back: otherwise the inode is blocked for ever
 		ruleG3(c, "C06.L11")
+		// a fresh inode is taken only after the lookup: a lookup with a cold name cache locks the directory's
+		// children one by one - holding the allocator's inode meanwhile adds an unordered lock to every such wait
+		ruleT12(c, "C06.L12")
+		// the shrinker retries a round that does not fit for ever: the round test must be able to pass
+		ruleShrinkReserve(c, "C06.L13")
 	}
 }
 
